@@ -42,6 +42,8 @@ LEVEL = {
     "technique": "static analysis: exception-handler census and exceptional-path reachability on the CFG; consumption tables by abstract evaluation",
 }
 LEVEL["decided"] += " (R06.8/R06.9) the tool tables and the islice table, shared: the library runs the source and the user's callables exactly as often as the stdlib counterpart, so an error raised by the k-th pull or call surfaces in both or in neither."
+LEVEL["decided"] += " (R06.10) fault cells: every cell of the tool, aggregation and merge tables once more for each request to a source (up to and including the one that would find it exhausted) and each call of the user's callable, with exactly that use raising - about 5000 cells: the items delivered before, the uses made (none after the failure) and the exception ending the operation equal the stdlib's (aggregations: result / exception, no use after the failure)."
+LEVEL["technique"] += '; fault cells by abstract evaluation against the executed stdlib with the same use failing'
 
 H4_UNITS = {"contextlib._AsyncGeneratorContextManager.__aenter__", "contextlib._AsyncGeneratorContextManager.__aexit__"}
 H5_UNITS = {"contextlib.ExitStack.__aexit__"}
@@ -120,7 +122,7 @@ def run(ctx) -> None:
     tooltables.fault_tables(ctx, "R06.10")
     ctx.rule("R06.9", "islice pulls exactly the items itertools.islice pulls (R05.5, shared)")
     c05.r05_5(Relabel(ctx, "R06.9"))
-    ctx.floor("tool_cells_decided", 120)
+    ctx.floor("tool_cells_decided", 340)
     ctx.floor("handlers", 15)
     ctx.floor("aexit_methods", 5)
 
